@@ -518,6 +518,10 @@ def _account(chk: Check, cases: T.List[T.Dict[str, T.Any]], alpha: T.List[T.Dict
 
 # ---------------------------------------------------------------------------
 
+def _noop(x: int) -> int:
+    return x
+
+
 def mc_cfg(argsel: T.Iterable[int], onesel: T.Iterable[int], maxbatch: int, maxdepth: int, maxobjs: int,
            kinds: T.Iterable[str], gnu: bool, invariants: T.Iterable[str], extra: str = '') -> str:
     return ('SPECIFICATION Spec\nCONSTANTS\n ArgSel = {%s}\n OneSel = {%s}\n MaxBatch = %d\n MaxDepth = %d\n MaxObjs = %d\n'
@@ -549,6 +553,9 @@ def main(chk: Check) -> None:
     # all model-checking runs are started now and go on in the background while the exported spaces are driven
     # through the implementation; their results are collected when needed
     from concurrent.futures import ThreadPoolExecutor
+    # the worker processes are forked NOW, before any thread exists (a fork while another thread holds a lock can hang the child)
+    ex = ProcessPoolExecutor(max_workers=common.NCPU)
+    list(ex.map(_noop, range(common.NCPU * 2)))
     mc_pool = ThreadPoolExecutor(max_workers=3)
     half = max(2, common.NCPU // 2)
     law_runs = [mc_pool.submit(run_tlc, SPECS / 'arglist', 'ArgList_MC', cfg_text=law_cfg, timeout=3000, allow_violation=False,
@@ -581,7 +588,7 @@ def main(chk: Check) -> None:
                    for sp in spaces}
     # the biggest model (wide) was submitted first and is used last
     spaces = spaces[1:] + spaces[:1]
-    with ProcessPoolExecutor(max_workers=common.NCPU) as ex:
+    with ex:
         for label, argsel, onesel, mb, mdepth, idepth, mo, kinds, gnu in spaces:
             res = refine_runs[label].result()
             chk.add_tlc(f'ArgListLazy_MC[{label},depth<={mdepth}]', res)
